@@ -36,6 +36,7 @@ CONSTANT Mutant   \* "none" | "formvalue" (the tree as found, D27) | "urlb64" | 
                   \* | "staticbeforeauth" (the client-set query parameters are snapshot before the auth writer ran)
                   \* | "redactsent" (with Debug on the Authorization header redacted for the dump is what Submit sends)
                   \* | "stickydefault" (the default-authentication wrapper is built once and keeps the first default)
+                  \* | "authintoop" (the wrapper, with the default of that moment, is stored into the CALLER's operation.AuthInfo)
 
 COLON == 58
 ACCESS == <<97, 99, 99, 101, 115, 115, 95, 116, 111, 107, 101, 110>>    \* "access_token"
@@ -116,11 +117,24 @@ RtMem0 == [firstdef |-> <<>>]
 UsesDefault(cfg, req) == req.op = <<>> /\ cfg.def # <<>>
 DefaultWriter(mem, cfg) == IF Mutant = "stickydefault" /\ mem.firstdef # <<>> THEN mem.firstdef[1] ELSE cfg.def
 
-\* the case as the configuration in force defines it / as the implementation sees it
+\* The CALLER's ClientOperation value is state of the caller, not of the transport: it may be submitted again - after the
+\* configuration was replaced, or through ANOTHER Runtime - and Submit must leave it as it was.
+\*  opval = [stuck : <<>> | <<def>>]  what the implementation wrote into an operation value that has no AuthInfo of its own
+\*          (nothing, for ever, in the faithful model)
+OpVal0 == [stuck |-> <<>>]
+\* the default credential the request is built with, for an operation without AuthInfo of its own
+DefaultSeen(mem, opval, cfg) ==
+  IF Mutant = "authintoop" /\ opval.stuck # <<>> THEN opval.stuck[1]      \* operation.AuthInfo # nil: the stored wrapper, whatever the Runtime
+  ELSE DefaultWriter(mem, cfg)
+\* a Runtime (mem, cfg) makes the request req with the caller's operation value opval -> [mem, opval, seen]
+RtSubmit(mem, opval, cfg, req) ==
+  LET own == req.op # <<>> IN
+  [mem   |-> IF Mutant = "stickydefault" /\ UsesDefault(cfg, req) /\ mem.firstdef = <<>> THEN [firstdef |-> <<cfg.def>>] ELSE mem,
+   opval |-> IF Mutant = "authintoop" /\ ~own /\ opval.stuck = <<>> /\ cfg.def # <<>> THEN [stuck |-> <<cfg.def>>] ELSE opval,
+   seen  |-> [req EXCEPT !.def = IF own THEN cfg.def ELSE DefaultSeen(mem, opval, cfg), !.debug = cfg.debug]]
+
+\* the case as the configuration in force (of the Runtime that sends it, when it sends it) defines it
 InForceCase(cfg, req) == [req EXCEPT !.def = cfg.def, !.debug = cfg.debug]
-RtRequest(mem, cfg, req) ==     \* -> [mem, seen]
-  [mem  |-> IF Mutant = "stickydefault" /\ UsesDefault(cfg, req) /\ mem.firstdef = <<>> THEN [firstdef |-> <<cfg.def>>] ELSE mem,
-   seen |-> [req EXCEPT !.def = IF UsesDefault(cfg, req) THEN DefaultWriter(mem, cfg) ELSE cfg.def, !.debug = cfg.debug]]
 
 ---------------------------------------------------------------------------
 (* Server side, as coded                                                   *)
